@@ -32,3 +32,14 @@ Definition gen_enumerated_value_length (value : Z) : option Z :=
   else if (-8388608 <=? value) && (value <? 8388608) then Some 3
   else if (-2147483648 <=? value) && (value <? 2147483648) then Some 4
   else None.
+
+(** X.696 clause 10: number of octets of a constrained INTEGER (None: variable size) *)
+Definition x696_int_octets (lo hi : Z) : option Z :=
+  if 0 <=? lo then
+    (if hi <=? 255 then Some 1 else if hi <=? 65535 then Some 2 else if hi <=? 4294967295 then Some 4
+     else if hi <=? 18446744073709551615 then Some 8 else None)
+  else
+    (if (-128 <=? lo) && (hi <=? 127) then Some 1
+     else if (-32768 <=? lo) && (hi <=? 32767) then Some 2
+     else if (-2147483648 <=? lo) && (hi <=? 2147483647) then Some 4
+     else if (-9223372036854775808 <=? lo) && (hi <=? 9223372036854775807) then Some 8 else None).
